@@ -59,6 +59,9 @@ impl Params {
         self.p_cost
     }
 }
+/// arguments of the most recent ParamsBuilder::build (read by the parameter-domain harnesses)
+pub static mut LAST_BUILD: (u32, u32, u32) = (0, 0, 0);
+pub static mut BUILDS: usize = 0;
 pub struct ParamsBuilder {
     m_cost: u32,
     t_cost: u32,
@@ -80,8 +83,12 @@ impl ParamsBuilder {
         self.p_cost = v;
         self
     }
-    /// argon2 0.5.3 ParamsBuilder::build
-    pub const fn build(&self) -> Result<Params> {
+    /// argon2 0.5.3 ParamsBuilder::build (Params::new)
+    pub fn build(&self) -> Result<Params> {
+        unsafe {
+            LAST_BUILD = (self.m_cost, self.t_cost, self.p_cost);
+            BUILDS += 1;
+        }
         if self.m_cost < Params::MIN_M_COST {
             return Err(Error::MemoryTooLittle);
         }
@@ -111,6 +118,10 @@ pub struct Argon2<'key> {
 /// parameters of the most recent hash_password_into call (read by the spec-conformance harnesses)
 pub static mut LAST_CALL: (u32, u32, u32, u8, u8) = (0, 0, 0, 0, 0);
 pub static mut CALLS: usize = 0;
+/// parameter-domain harnesses: when set, reaching the KDF asserts the harness's expectation
+/// (`EXPECT_VALID`) and then ends the path (the hash itself is not the subject there)
+pub static mut ABORT_AT_KDF: bool = false;
+pub static mut EXPECT_VALID: bool = true;
 impl<'key> Argon2<'key> {
     pub fn new(alg: Algorithm, ver: Version, params: Params) -> Self {
         Argon2 { alg, ver, params, _k: core::marker::PhantomData }
@@ -125,6 +136,11 @@ impl<'key> Argon2<'key> {
         unsafe {
             LAST_CALL = (self.params.m_cost, self.params.t_cost, self.params.p_cost, self.alg as u8, self.ver as u8);
             CALLS += 1;
+            if ABORT_AT_KDF {
+                assert!(EXPECT_VALID, "the KDF was reached with cost parameters the specification rejects");
+                #[cfg(kani)]
+                kani::assume(false);
+            }
         }
         let mut t = Transcript::new();
         t.absorb(&[self.alg as u8, self.ver as u8, out.len() as u8]);
